@@ -92,6 +92,9 @@ class SerializedWaiter(BaseModel):
     waiting_for_event: str
     # Requirements dict for matching the waited-for event
     has_requirements: bool = Field(default=False)
+    # The requirements themselves when they are plain JSON values (else {}: the
+    # step then has to re-register them after a resume)
+    requirements: dict[str, Any] = Field(default_factory=dict)
     # Resolved event if available (serialized), None otherwise
     resolved_event: str | None = None
     # True once the wait's timeout has fired and the step is due to receive TimeoutError
